@@ -31,6 +31,7 @@ def configs():
         # non-default tuning state: a stretch parameter other than 2; assessment intervals that have already grown
         ("EnsembleSampler", {"alpha": 3.5}), ("GibbsChain", {"grown": True}), ("HamiltonianChain", {"grown": True, "T": 2.0}),
         # a particle mass re-estimated from the samples after construction (per-parameter and full matrix)
+        ("EnsembleSampler", {"bigcounts": True}),             # a walker that needed several hundred attempts (max_attempts raised)
         ("HamiltonianChain", {"remass": "diagonal"}), ("HamiltonianChain", {"remass": "full", "T": 2.0, "bounds": True}),
     ]
 
@@ -71,6 +72,12 @@ def build(cname, opt, sd):
             ch.set_non_negative(1, True)
             ch.set_boundaries(2, (0.5, 2.5))
             ch.set_non_negative(2, True)
+    if opt.get("bigcounts"):
+        ch.max_attempts = 1000
+        ch.rng = np.random.default_rng(sd + 78)
+        ch.advance(3)
+        ch.total_proposals[0][-1] = 700
+        ch.total_proposals[2][0] = 256
     if opt.get("remass"):
         ch.rng = np.random.default_rng(sd + 77)
         ch.advance(25)
